@@ -141,6 +141,57 @@ PLAN = {
                  "cnt (multiplicity in a list prefix) is defined by recursion on the prefix length; list.append extends it (A-LIB)",
                  "A-INF: float('inf') stored in a real-sorted field is a constant > 1e30"],
     ),
+    "C06": dict(
+        level="other",
+        bounded=[dict(module="rt.netmon", fn="feasibility_monitor", label="three feasibility checkers against the phasor definition near the limits")],
+        text="BOUNDED so far: on seeded networks (mixed-sign / fractional coefficients, phases 30/-90/150/0, varied network tolerances) and schedules "
+             "scaled to (1 +- 1e-7 .. 1e-3) x the binding limit, ChargingNetwork.is_feasible, Interface.is_feasible and "
+             "algorithms.utils.infrastructure_constraints_feasible are each compared with the first-principles definition |sum_j a_ij s_jt e^{i phi_j}| "
+             "<= limit_i + max(abs tol, rel tol x limit_i) for explicit tolerances None / 0 / defaults / 0.5; constraint-free networks accept "
+             "everything and hand out an InfrastructureInfo; the linear relaxation equals sum |a| s and never accepts a non-negative schedule the "
+             "phase-aware check rejects; feasibility queries leave the limits untouched; a rejected add_constraint leaves all checkers usable.",
+        note="no obligation is proved for C06 yet (numpy matrix code); schedules exactly on the boundary are skipped (floating-point rounding decides them)",
+        explanation="bounded run-time contract monitor only (rt.netmon.feasibility_monitor)",
+        technique="run-time contract monitor on the real functions against the phasor definition (bounded stand-in); deductive obligations pending",
+    ),
+    "C12": dict(
+        level="other",
+        bounded=[dict(module="rt.netmon", fn="constraint_monitor", label="add/remove/update/register sequences with algebra-built Currents against the row model")],
+        text="BOUNDED so far: seeded sequences of add_constraint (with Currents built by nested sums, differences and scalar multiples from dict / list / "
+             "str, incl. duplicate names), remove_constraint, update_constraint, register_evse and subset queries; after every operation row i of the "
+             "constraint matrix must hold exactly the coefficient of every station (0 if absent) in registration order together with limit i and name "
+             "i; an unknown station raises KeyError and leaves matrix, limits, names and stations unchanged; registration after constraints raises; "
+             "constraint_current for a subset returns the rows in network order and the requested columns; every algebra result is a Current whose "
+             "coefficients are the pointwise sum / difference / multiple with absent stations read as 0.",
+        note="no obligation is proved for C12 (pandas DataFrame code is outside the verifier's reach without a large axiomatisation)",
+        explanation="bounded run-time contract monitor only (rt.netmon.constraint_monitor)",
+        technique="run-time contract monitor on the real functions against a row model (bounded stand-in)",
+    ),
+    "C16": dict(
+        level="other",
+        bounded=[dict(module="rt.netmon", fn="sites_monitor", label="site models: largest feasible multiples of many load directions against the physical ratings")],
+        text="BOUNDED so far: for Caltech, JPL and Office001 (basic and real EVSE types, several capacity parameters) every EVSE must carry angle 30 / -90 / "
+             "150 and have a non-zero coefficient in a transformer-secondary row; for many load directions (balanced, one per constraint row, every "
+             "phase group of every transformer / panel / pod, random) the largest multiple the real network reports feasible is found by bisection and "
+             "the physical quantities are recomputed from first principles from the stations' phase angles: total power behind each transformer <= its "
+             "capacity (at 120 sqrt 3 V), delta line currents of every transformer / sub-panel / panel and pod sums within their ratings; feasibility "
+             "queries must not move the limits.",
+        note="no obligation is proved for C16 yet; the physical topology (which stations are behind which transformer / panel / pod and the panel ratings) is "
+             "written in the monitor from the site documentation and is the trusted oracle",
+        explanation="bounded run-time contract monitor only (rt.netmon.sites_monitor)",
+        technique="run-time contract monitor on the real factories against first-principles delta/wye line currents (bounded stand-in); deductive obligations pending",
+    ),
+    "C18": dict(
+        level="other",
+        bounded=[dict(module="rt.netmon", fn="analysis_monitor", label="analysis functions against first-principles recomputation on completed simulations")],
+        text="BOUNDED so far: on completed seeded simulations (heterogeneous voltages, >= 2 three-phase constraints) aggregate_current / aggregate_power, "
+             "constraint_currents for random subsets and orderings of requested names (values must be that constraint's phase-aware currents under its "
+             "own name), energy totals, proportion of energy delivered, proportion of demands met for thresholds incl. exact remaining demands, NEMA "
+             "unbalance and datetimes_array are compared with first-principles recomputation from the recorded trajectory.",
+        note="no obligation is proved for C18 yet (numpy code); return_magnitudes is interpreted as implemented (False -> magnitudes), see DESIGN O-3",
+        explanation="bounded run-time contract monitor only (rt.netmon.analysis_monitor)",
+        technique="run-time contract monitor on the real functions (bounded stand-in); deductive obligations pending",
+    ),
     "C20": dict(
         level="other",
         bounded=[dict(module="rt.fnmon", fn="dataclient_monitor", label="DataClient against a stub server; RFC-1123 conversions around DST transitions")],
